@@ -321,14 +321,22 @@ func negative(tokens []Token, baseUrl string, out *csDescriptors) error {
 // @descriptor("counter-style", "prefix", wantsBaseUrl=true)
 // @descriptor("counter-style", "suffix", wantsBaseUrl=true)
 
-func prefix(tokens []Token, baseUrl string, out *csDescriptors) (err error) {
-	out.Prefix, err = _prefixSuffix(tokens, baseUrl)
-	return err
+func prefix(tokens []Token, baseUrl string, out *csDescriptors) error {
+	v, err := _prefixSuffix(tokens, baseUrl)
+	if err != nil { // keep the previous value
+		return err
+	}
+	out.Prefix = v
+	return nil
 }
 
-func suffix(tokens []Token, baseUrl string, out *csDescriptors) (err error) {
-	out.Suffix, err = _prefixSuffix(tokens, baseUrl)
-	return err
+func suffix(tokens []Token, baseUrl string, out *csDescriptors) error {
+	v, err := _prefixSuffix(tokens, baseUrl)
+	if err != nil { // keep the previous value
+		return err
+	}
+	out.Suffix = v
+	return nil
 }
 
 // “prefix“ && “suffix“ descriptors validation.
@@ -447,7 +455,7 @@ func fallback(tokens []Token, _ string, out *csDescriptors) error {
 	}
 	token := tokens[0]
 	ident := getCustomIdent(token)
-	if ident == "none" {
+	if ident == "" || ident == "none" {
 		return ErrInvalidValue
 	}
 	out.Fallback = ident
